@@ -2,6 +2,7 @@ package props
 
 import (
 	"bytes"
+	"context"
 	"encoding/binary"
 	"errors"
 	"fmt"
@@ -12,6 +13,7 @@ import (
 	"runtime"
 	"testing"
 
+	"github.com/ClickHouse/ch-go"
 	"github.com/ClickHouse/ch-go/compress"
 	"github.com/ClickHouse/ch-go/proto"
 	"github.com/go-faster/city"
@@ -19,6 +21,7 @@ import (
 	"chgosim/choice"
 	"chgosim/refproto"
 	"chgosim/simio"
+	"chgosim/simnet"
 )
 
 func init() {
@@ -70,7 +73,98 @@ type c05Frame struct {
 	payload  []byte
 }
 
+// runC05Client: a compressed Data packet of a server response is altered in
+// one byte on its way to a real client; the query must fail with the exported
+// corruption error carrying both checksums (length fields intact), and no
+// callback may see data of the damaged block.
+func runC05Client(t *testing.T, c *choice.Stream, r *Result, opt RunOpt) {
+	Bubble(t, c, r, opt, func(e *Env) func() {
+		cf := DrawConf(c)
+		cf.Comp = []ch.Compression{ch.CompressionLZ4, ch.CompressionLZ4HC, ch.CompressionZSTD, ch.CompressionNone}[c.Draw("comp.on", 4)]
+		rs := drawResponse(c, cf, 5)
+		// make sure there is a data block with rows
+		rs.packets = append([]*SPacket{{Kind: "data", Block: DrawBlock(c, rs.cols, c.Range("rows", 1, 6))}}, rs.packets...)
+		var stream []byte
+		target, tOff, tEnd := -1, 0, 0
+		for i, p := range rs.packets {
+			b := p.Encode(cf)
+			if p.Kind == "data" && target < 0 && len(p.Block.Cols) > 0 {
+				target, tOff, tEnd = i, len(stream), len(stream)+len(b)
+			}
+			stream = append(stream, b...)
+		}
+		// the first frame of that packet starts after the packet code and the empty table name
+		fOff := tOff + 2
+		fr, err := refproto.DecodeFrame(&refproto.R{B: stream[fOff:tEnd]})
+		if err != nil || !fr.ChecksumOK {
+			panic(fmt.Sprintf("reference cannot re-read its own frame: %v", err))
+		}
+		o := c.Draw("flip.off", fr.WireLen)
+		mask := []byte{0x01, 0x80, 0xff}[c.Draw("flip.mask", 3)]
+		lengthsIntact := !(o >= 17 && o < 25)
+		damaged := append([]byte(nil), stream...)
+		damaged[fOff+o] ^= mask
+		nop := func(*refproto.ClientPacket) []byte { return nil }
+		script := cf.HandshakeSteps()
+		script = append(script, simnet.Step{Label: "query", OnPacket: nop}, simnet.Step{Label: "ext-end", OnPacket: nop}, simnet.Step{Label: "damaged-response", Send: damaged, Fin: true})
+		e.Sim.DrawStrategy()
+		e.Sim.StallProb = 0
+		e.Sim.MaxSteps = 400000
+		e.W.DeliverMode = c.Weighted("deliver", 3, 1, 3)
+		srv := simnet.NewServer(cf.ServerRev, script)
+		conn := e.W.NewConn(srv)
+		want, _, _ := rs.expected()
+		r.Cell = "client"
+		r.NonTriv = true
+		r.Fire("flip")
+		r.Sample = map[string]any{"family": "corrupted Data packet through the client", "compression": cf.Comp.String(), "frame_bytes": fr.WireLen, "flip_offset_in_frame": o, "mask": mask, "frame_chunk": cf.FrameChunk}
+		return func() {
+			cl, err := ch.Connect(context.Background(), conn, cf.Options())
+			if err != nil {
+				r.Harness("fault-free handshake failed: %v", err)
+				return
+			}
+			derr := cl.Do(context.Background(), rs.query)
+			if derr == nil {
+				r.Violate("corruption-accepted", "corruption-accepted:client", "byte %d of a compressed Data frame (%d bytes) was altered with mask %#x and Do returned nil", o, fr.WireLen, mask)
+				return
+			}
+			if lengthsIntact {
+				var ce *ch.CorruptedDataErr
+				if !errors.As(derr, &ce) {
+					r.Violate("not-a-corruption-error", "not-a-corruption-error:client", "frame altered at offset %d (length fields intact) but Do's error carries no ch.CorruptedDataErr: %v", o, derr)
+					return
+				}
+				d := damaged[fOff : fOff+fr.WireLen]
+				stored := city.U128{Low: binary.LittleEndian.Uint64(d[0:]), High: binary.LittleEndian.Uint64(d[8:])}
+				if ce.Reference != stored || ce.Actual != city.CH128(d[16:]) {
+					r.Violate("wrong-checksums", "wrong-checksums:client", "ch.CorruptedDataErr carries reference %x / actual %x, the frame stores %x and hashes to %x", ce.Reference, ce.Actual, stored, city.CH128(d[16:]))
+					return
+				}
+			}
+			// nothing of the damaged block may have reached a callback
+			got := rs.rec.Events
+			for i := range got {
+				if i >= len(want) || got[i] != want[i] {
+					r.Violate("damaged-data-delivered", "damaged-data-delivered:client", "callback event %d is not what the undamaged stream delivers: %.400s", i, got[i])
+					return
+				}
+			}
+			idx := 0
+			for _, p := range rs.packets[:target] {
+				_ = p
+				idx++
+			}
+			_ = idx
+		}
+	})
+}
+
 func runC05(t *testing.T, c *choice.Stream, r *Result, opt RunOpt) {
+	if c.Bool("family.client", 1, 12) {
+		runC05Client(t, c, r, opt)
+		return
+	}
 	// ---- build the stream with the real writer ----
 	nf := c.Weighted("frames", 5, 3, 2, 1, 1, 1) + 1
 	var stream []byte
